@@ -235,6 +235,7 @@ func (req *SrvReq) process() {
 
 	if flushed {
 		req.Respond()
+		return
 	}
 
 	if rop, ok := (req.Conn.Srv.ops).(SrvReqProcessOps); ok {
